@@ -854,7 +854,7 @@ VARIANTS = [
     V("match on value instead of prefix", "break", _R, "            if prefix in props:\n                parsed[prefix] = value", "            if event == \"map_key\" and value in props:\n                parsed[value] = value", "O19.3"),
     V("early exit on properties only", "break", _R, "                len(parsed) == len(props)\n                and (lists is None or len(parsed_lists) == len(lists))\n                and (objects is None or len(parsed_objects) == len(objects))", "                len(parsed) == len(props)", "O19.3"),
     V("cursor from the request body instead of the response", "break", _R, "                    body[\"search_after\"] = last_sort", "                    body[\"search_after\"] = body.get(\"search_after\", last_sort)", "O19.6"),
-    V("composite after key from the previous page", "break", _R, "                after_key = parsed[\"after_key\"]\n                if isinstance(after_key, dict):", "                after_key = composite_agg_body.get(\"after\") or parsed[\"after_key\"]\n                if isinstance(after_key, dict):", "O19.6"),
+    V("composite after key from the previous page", "break", _R, "                after_key = parsed[\"after_key\"]\n                if isinstance(after_key, dict) and", "                after_key = composite_agg_body.get(\"after\") or parsed[\"after_key\"]\n                if isinstance(after_key, dict) and", "O19.6"),
     # preserving
     V("predicate extracted into a local", "keep", _R, "                if data[\"status\"] > 299 or (\"_shards\" in data and data[\"_shards\"][\"failed\"] > 0):\n                    bulk_error_count += 1\n                    self.extract_error_details(error_details, data)\n                else:\n                    bulk_success_count += 1\n        stats = {\n            \"took\": props.get(\"took\"),",
       "                failed = data[\"status\"] > 299 or (\"_shards\" in data and data[\"_shards\"][\"failed\"] > 0)\n                if failed:\n                    bulk_error_count += 1\n                    self.extract_error_details(error_details, data)\n                else:\n                    bulk_success_count += 1\n        stats = {\n            \"took\": props.get(\"took\"),"),
